@@ -426,4 +426,91 @@ compiled after them -/
 def pyCompileADF (pts : List (PyCPset × List Prim)) : Option (List Val → Option Val) :=
   (pts.reverse.foldl pyAdfStep ([], none)).2
 
+/-! ## Renaming histories (`PrimitiveSetTyped.renameArguments`, gp.py:343-354)
+
+A tree OBJECT does not own the names of its argument leaves: it holds references to the `Terminal` objects the set
+created for its argument positions, and `renameArguments` mutates those objects in place (`terminal.value = new_name`)
+together with `pset.arguments`.  The model keeps the tree fixed (the node list never changes under a renaming) and puts
+the state into the list `cur` of current argument names, by position: `argIx p = some i` says that node `p` is the
+terminal of argument position `i` (the harness decides it by object identity), and `viewNode` is what that node prints
+at the moment the names are `cur`.  `str(tree)` / `compile(tree, pset)` at that moment are `strBuilder` / `compileSrc cur`
+of the viewed node list: functions of the node list and the CURRENT names only, never of what was printed before. -/
+
+/-- `kargs[old_name]` when `old_name in kargs` (keyword arguments are a dict: the first entry of a key counts) -/
+def kwLookup (kargs : List (Str × Str)) (x : Str) : Option Str :=
+  match kargs.find? (fun e => e.1 == x) with
+  | some e => some e.2
+  | none => none
+
+/-- one call `pset.renameArguments(**kargs)` on `pset.arguments` (gp.py:347-350): every position whose current name is
+a keyword gets the new name, all at once (the two-pass form after F30: no position sees another one's new name) -/
+def renameArgs (arguments : List Str) (kargs : List (Str × Str)) : List Str :=
+  arguments.map (fun a => (kwLookup kargs a).getD a)
+
+/-- a sequence of `renameArguments` calls on the same set -/
+def renameHistory (arguments : List Str) (ks : List (List (Str × Str))) : List Str :=
+  ks.foldl renameArgs arguments
+
+mutual
+def mapTree (f : Prim → Prim) : Tree → Tree
+  | .node p as => .node (f p) (mapF f as)
+def mapF (f : Prim → Prim) : List Tree → List Tree
+  | [] => []
+  | t :: ts => mapTree f t :: mapF f ts
+end
+
+/-- the node as it prints while the argument terminals carry the names `cur` -/
+def viewNode (argIx : Prim → Option Nat) (cur : List Str) (p : Prim) : Prim :=
+  match argIx p with
+  | some i =>
+    match cur[i]? with
+    | some nm => { p with kind := .term, text := String.ofList nm }
+    | none => p
+  | none => p
+
+/-- the tree object seen at the moment the names are `cur` -/
+def viewTree (argIx : Prim → Option Nat) (cur : List Str) (t : Tree) : Tree := mapTree (viewNode argIx cur) t
+
+mutual
+/-- the statement's DIRECT interpretation of the prefix tree, with no names for the arguments at all: the terminal of
+argument position `i` is the `i`-th value of the argument tuple; every other node as in `evalTree` -/
+def evalRef (env : Env) (argIx : Prim → Option Nat) (vals : List Val) : Tree → Option Val
+  | .node p as =>
+    match argIx p with
+    | some i => vals[i]?
+    | none =>
+      if p.kind = .prim then
+        match env.funs p.name.toList, evalRefF env argIx vals as with
+        | some f, some vs => f vs
+        | _, _ => none
+      else
+        match env.vars p.text.toList with
+        | some v => some v
+        | none => env.lit p.text.toList
+def evalRefF (env : Env) (argIx : Prim → Option Nat) (vals : List Val) : List Tree → Option (List Val)
+  | [] => some []
+  | t :: ts =>
+    match evalRef env argIx vals t, evalRefF env argIx vals ts with
+    | some v, some vs => some (v :: vs)
+    | _, _ => none
+end
+
+/-- a session on ONE tree object and ONE set: `rename kargs` mutates the set, `compile` / `str` observe the tree -/
+inductive HStep where
+  | rename (kargs : List (Str × Str))
+  | compile
+  | str
+
+/-- run a session; the observations are the source handed to `eval` (for `compile`) / the printed tree (for `str`), in
+order, and the final argument names -/
+def runSession (argIx : Prim → Option Nat) (l : List Prim) : List Str → List HStep → List Str × List Str
+  | cur, [] => ([], cur)
+  | cur, .rename kargs :: rest => runSession argIx l (renameArgs cur kargs) rest
+  | cur, .compile :: rest =>
+    let r := runSession argIx l cur rest
+    (compileSrc cur (l.map (viewNode argIx cur)) :: r.1, r.2)
+  | cur, .str :: rest =>
+    let r := runSession argIx l cur rest
+    (strBuilder (l.map (viewNode argIx cur)) :: r.1, r.2)
+
 end GpCompile
